@@ -7,7 +7,7 @@ namespace Solvor.Gen
 guards in the source make every one of them exact. -/
 def lubyLoop : Nat → Nat → Nat → Nat
   | 0, _, _ => 0
-  | fuel + 1, i, k => if i = ((1 <<< k) - 1) then (1 <<< (k - 1)) else if i ≥ (1 <<< (k - 1)) then lubyLoop fuel (i - ((1 <<< (k - 1)) - 1)) 1 else lubyLoop fuel i (k + 1)
+  | fuel + 1, i, k => if i = ((1 <<< k) - 1) then (1 <<< (k - 1)) else if i < ((1 <<< k) - 1) then lubyLoop fuel (i - ((1 <<< (k - 1)) - 1)) 1 else lubyLoop fuel i (k + 1)
 def lubyK0 : Nat := 1
 
 end Solvor.Gen
